@@ -74,6 +74,37 @@ def run(chk):
     elif first_model_bad:
         chk.tie_broken("storage model vs header", "first disagreement (N,n1,n2,n3,impl,model) = %r" % (first_model_bad,))
 
+    # ---- (A2) refill histories: fill(N1) ... fill(Nk) on the same container (shrinking, growing, to and from 0) ----
+    seqs = [[2, 1], [3, 1], [1, 3], [3, 0, 2], [0, 2, 0], [3, 1, 2], [4, 2], [2, 2], [1, 0], [0, 1]]
+    for _ in range(6 if quick else 40):
+        seqs.append([chk.rng.randint(0, 4) for _ in range(chk.rng.randint(2, 5))])
+    inp = "".join("probeseq %d %s %d %d\n" % (len(s_), " ".join(map(str, s_)), -2 * max(s_) - 3, 2 * max(s_) + 3) for s_ in seqs)
+    rc, out, err = pv.run_harness(h, inp, timeout=900)
+    done = [l for l in out.split("\n") if l.startswith("PSDONE")]
+    if rc != 0 or len(done) != len(seqs):
+        chk.violation("h_c15 probeseq crashed", "harness exit %d on refill sequences after %d/%d: %s" % (rc, len(done), len(seqs), err[-300:]),
+                      {"harness": "h_c15", "input": inp, "stderr": err[-1500:]})
+    bad_by_seq, cur = {}, []
+    for l in out.split("\n"):
+        if l.startswith("PSBAD"):
+            cur.append(l.split()[1:])
+        elif l.startswith("PSDONE"):
+            t = l.split()
+            sq = tuple(int(x) for x in t[2:])
+            if cur:
+                bad_by_seq[sq] = cur
+            cur = []
+            shape = "shrink" if len(sq) > 1 and sq[-1] < max(sq[:-1]) else ("grow" if len(sq) > 1 and sq[-1] > max(sq[:-1]) else "same")
+            chk.case("PS " + " ".join(map(str, sq)), "refill %s%s" % (shape, " via0" if 0 in sq[:-1] else ""), True,
+                     {"refill_sequence": list(sq)} if sq == (3, 1, 2) else None)
+    if bad_by_seq:
+        sq = min(bad_by_seq, key=lambda q: (len(q), sum(q), q))
+        b = bad_by_seq[sq][0]
+        chk.violation("storage after refill sequence " + ",".join(map(str, sq)),
+                      "after fill(%s) on one container the lookup of (%s,%s,%s) returns the value of (%s,%s,%s); %d refill sequences affected" %
+                      ("), fill(".join(map(str, sq)), b[0], b[1], b[2], b[3], b[4], b[5], len(bad_by_seq)),
+                      {"harness": "h_c15", "input": "probeseq %d %s %d %d" % (len(sq), " ".join(map(str, sq)), -2 * max(sq) - 3, 2 * max(sq) + 3)})
+
     # window size reported by the model == number of hits counted independently in the box
     chk.extra["window_hits_in_boxes"] = nwin
 
@@ -92,7 +123,7 @@ def run(chk):
             for l in out.split("\n"):
                 if l.startswith("X "):
                     t = l.split()
-                    chk.violation("vertex storage model=%s quad=%s N=%s triple=(%s,%s,%s)" % (name, "".join(t[1:5]), t[5], t[6], t[7], t[8]),
+                    chk.violation("vertex storage differs from value() model=%s" % name,
                                   "Vertex4::operator() differs from Vertex4::value(): %s vs %s" % (" ".join(t[9:11]), " ".join(t[11:13])),
                                   {"harness": "h_c15", "input": inp, "line": l})
                 if l.startswith("S "):
@@ -126,10 +157,27 @@ def run(chk):
                                   {"harness": "h_c15", "input": inp, "triple": [n1, n2, n3], "expected": str(spec), "observed": str(val)})
                 elif abs(mv - val) > 1e-12 * scale:
                     chk.tie_broken("vertex_value (generated) vs Vertex4::value", "(%d,%d,%d): model %s impl %s" % (n1, n2, n3, mv, val))
+    for name, model, quads in MODELS:
+        vs = [[2, 1], [1, 2, 1], [3, 1, 2, 0, 2]] if quick else [[2, 1], [1, 2, 1], [3, 1, 2, 0, 2], [4, 2, 3, 1], [0, 3, 0, 1]]
+        inp = "model\n" + model + "end\n" + "".join("vertexseq %d %d %d %d %d %s 2\n" % (quads[0] + (len(v), " ".join(map(str, v)))) for v in vs)
+        rc, out, err = pv.run_harness(h, inp, timeout=900)
+        if rc != 0:
+            chk.violation("h_c15 vertexseq crashed model=%s" % name, "harness exit %d: %s" % (rc, err[-300:]), {"input": inp, "stderr": err[-1500:]})
+            continue
+        for l in out.split("\n"):
+            if l.startswith("SS "):
+                t = l.split()
+                chk.case("SS %s %s" % (name, l), "vertex recompute step N=%s" % t[2], True, None)
+            if l.startswith("XS "):
+                t = l.split()
+                chk.violation("vertex storage differs from value() after recompute model=%s" % name,
+                              "one Vertex4 object recomputed with several windows: at step %s (N=%s) operator()(%s,%s,%s) = %s but value() = %s" %
+                              (t[1], t[2], t[3], t[4], t[5], " ".join(t[6:8]), " ".join(t[8:10])), {"harness": "h_c15", "input": inp, "line": l})
     chk.rule = ("storage: every triple of the box [-2N-3,2N+3]^3 for each window size N (exhaustive); a case is non-trivial when all four "
                 "frequencies are within one step of the window [-N,N) (hits and boundary misses); vertex: every triple of "
                 "[-2N-2,2N+2]^3 compared bit-for-bit between operator() and value() on two models, and a strided sample plus "
-                "a third of the n1=n3 / n2=n3 triples compared with the generated formula and with chi - chi0; distinct = distinct canonical input")
+                "a third of the n1=n3 / n2=n3 triples compared with the generated formula and with chi - chi0; refill histories: fill(N1)..fill(Nk) on one "
+                "container (shrinking, growing, through 0) and one Vertex4 object recomputed with several windows; distinct = distinct canonical input")
     chk.extra["exhaustive"] = True
     chk.extra["window_sizes"] = Ns
 
